@@ -971,10 +971,11 @@ package yang
 // The rest of Type.resolve (restrictions, unions) is outside this contract.
 //@ spec scopeFind(d *typeDictionary, n Node, name string) *Typedef = n == nil ? nil : (dictFind(d, n, name) != nil ? dictFind(d, n, name) : scopeFind(d, nodeParent(n), name))
 //@ pred localName(t *Type) = pfxOf(t.Name) == "" || pfxOf(t.Name) == ownPrefix(rootOf(iface(t)))
-//@ func (*Type).resolve props C09 C14
+//@ func (*Type).resolve props C09 C14 C18
+//@   ensures[a-type-that-is-resolved-answers-with-the-errors-found-then] old(t.YangType) != nil ==> result == old(t.resolveErrs) && t.YangType == old(t.YangType)
 //@   requires t != nil && d != nil && rootOf(iface(t)) != nil && rootOf(iface(t)).Modules != nil && (forall m *Module :: modOK(m))
 //@   requires forall i int :: 0 <= i && i < len(rootOf(iface(t)).Import) ==> rootOf(iface(t)).Import[i] != nil && rootOf(iface(t)).Import[i].Prefix != nil
-//@   only before: loop1/ loop2/ pre:RootNode/ pre:(*typeDictionary).find pre:getPrefix pre:(*typeDictionary).findExternal invoke
+//@   only before: loop1/ loop2/ pre:RootNode/ pre:(*typeDictionary).find pre:getPrefix pre:(*typeDictionary).findExternal invoke ensures:a-type-that-is-resolved
 //@   before[a-built-in-name-denotes-the-built-in] (*Typedef).resolve old(BaseTypedefs[t.Name]) != nil ==> arg0 == old(BaseTypedefs[t.Name])
 //@   before[a-local-name-binds-to-the-nearest-enclosing-scope] (*Typedef).resolve old(BaseTypedefs[t.Name]) == nil && old(localName(t)) && scopeFind(d, iface(t), baseOf(t.Name)) != nil ==> arg0 == scopeFind(d, iface(t), baseOf(t.Name))
 //@   before[then-to-the-submodules-the-module-includes] (*Typedef).resolve old(BaseTypedefs[t.Name]) == nil && old(localName(t)) && scopeFind(d, iface(t), baseOf(t.Name)) == nil
@@ -999,7 +1000,7 @@ package yang
 //@ func (*Typedef).resolve$1 props C09
 //@   ensures t.resolving == false
 //@   modifies t.resolving
-//@ func (*Typedef).resolve props C09
+//@ func (*Typedef).resolve props C09 C18
 //@   only ensures
 //@   ensures[resolved-once] old(t.Parent == nil || t.YangType != nil) ==> len(result) == 0 && t.YangType == old(t.YangType)
 //@   ensures[a-copy-named-after-the-typedef] old(t.Parent != nil && t.YangType == nil && !t.resolving) && len(result) == 0
